@@ -363,9 +363,29 @@ def case_solve(spec, rec):
               'tol': cfg['tol']})
 
 
-SUBS = {'solve': case_solve}
+LARGE = [8, 12, 16, 16, 20, 24, 32, 40, 48]
+
+
+def large_strategy():
+    """Larger grids (thorough tier): up to 20 000 cells, MG-friendly and
+    unfriendly counts, default-like configurations dominate."""
+    return st.fixed_dictionaries({
+        'grid': gen.grid_spec(LARGE, kinds=('uniform', 'stretch')),
+        'model': gen.model_spec(max_decades=2.0),
+        'freq': gen.freq_spec(),
+        'source': st.sampled_from(['dipole', 'solve_source', 'random_inner']),
+        'init': st.sampled_from(['none', 'none', 'random', 'near']),
+        'cfg': config_spec(),
+        'seed': gen.SEED,
+    }).filter(lambda s: 2000 < np.prod(s['grid']['n']) <= 20000)
+
+
+SUBS = {'solve': case_solve, 'large': case_solve}
 
 
 def run(ctx):
     ctx.regression(SUBS)
     ctx.explore('solve', spec_strategy(), case_solve, ctx.n(1500, 4000))
+    if not ctx.quick:
+        ctx.explore('large', large_strategy(), case_solve, ctx.n(0, 8),
+                    shrink=False)
